@@ -1070,3 +1070,56 @@ func (b *Binder) inlineCall(call *ast.CallExpr, st Store) Tri {
 	}
 	return result
 }
+
+// ReachAvoiding reports whether some CFG path leads from just after `from` to `to` without executing any of the
+// `avoid` locations (back edges included: the walk is over the whole graph).
+func (g *Graph) ReachAvoiding(from, to Loc, avoid []Loc) bool {
+	if !from.Valid() || !to.Valid() {
+		return false
+	}
+	blocked := func(b *cfg.Block, i int) bool {
+		for _, a := range avoid {
+			if a.B == b && a.I == i {
+				return true
+			}
+		}
+		return false
+	}
+	// scan a block from index i; returns (found, fellThrough)
+	scan := func(b *cfg.Block, i int) (bool, bool) {
+		for ; i < len(b.Nodes); i++ {
+			if to.B == b && to.I == i {
+				return true, false
+			}
+			if blocked(b, i) {
+				return false, false
+			}
+		}
+		return false, true
+	}
+	seen := map[*cfg.Block]bool{}
+	var work []*cfg.Block
+	found, through := scan(from.B, from.I+1)
+	if found {
+		return true
+	}
+	if through {
+		work = append(work, from.B.Succs...)
+	}
+	for len(work) > 0 {
+		b := work[len(work)-1]
+		work = work[:len(work)-1]
+		if seen[b] {
+			continue
+		}
+		seen[b] = true
+		found, through := scan(b, 0)
+		if found {
+			return true
+		}
+		if through {
+			work = append(work, b.Succs...)
+		}
+	}
+	return false
+}
